@@ -50,6 +50,23 @@ type SVGImage struct {
 
 	// needed to draw text
 	cursorPosition, cursorDPosition point
+
+	// clip paths and masks being applied: one that (indirectly)
+	// references itself is ignored instead of being followed forever
+	refsInUse map[string]bool
+}
+
+// enterRef reports whether the definition [key] is not already being applied,
+// and marks it as such
+func (svg *SVGImage) enterRef(key string) bool {
+	if svg.refsInUse[key] {
+		return false
+	}
+	if svg.refsInUse == nil {
+		svg.refsInUse = make(map[string]bool)
+	}
+	svg.refsInUse[key] = true
+	return true
 }
 
 // DisplayedSize returns the value of the "width" and "height" attributes
@@ -119,8 +136,9 @@ func (svg *SVGImage) drawNode(dst backend.Canvas, node *svgNode, dims drawingDim
 		}
 
 		// clip
-		if cp, has := svg.definitions.clipPaths[node.clipPathID]; has {
+		if cp, has := svg.definitions.clipPaths[node.clipPathID]; has && svg.enterRef("clipPath#"+node.clipPathID) {
 			svg.applyClipPath(dst, cp, node, dims)
+			delete(svg.refsInUse, "clipPath#"+node.clipPathID)
 		}
 
 		// Handle text anchor
@@ -192,8 +210,9 @@ func (svg *SVGImage) drawNode(dst backend.Canvas, node *svgNode, dims drawingDim
 		}
 
 		// apply mask
-		if ma, has := svg.definitions.masks[node.maskID]; has {
+		if ma, has := svg.definitions.masks[node.maskID]; has && svg.enterRef("mask#"+node.maskID) {
 			svg.applyMask(dst, ma, node, dims)
+			delete(svg.refsInUse, "mask#"+node.maskID)
 		}
 
 		// do the actual painting :
